@@ -230,6 +230,10 @@ private:
   {
     SessionId id{0};
     std::chrono::steady_clock::time_point lastUsed{};
+    /// Whether the session was opened with TLS (https). The cache slot is keyed by
+    /// host:port only, so the scheme must be compared before reuse: an https request
+    /// must never ride a cached PLAINTEXT session to the same host:port (or vice versa).
+    bool tls{false};
   };
 
   // ── RFC 9112 §6.3/§7.1 response framing types (declared before the methods
@@ -795,13 +799,15 @@ private:
           sawSurplus = _surplusSessions.erase(it->second.id) > 0;
         }
         auto now = std::chrono::steady_clock::now();
-        if (!sawSurplus && now - it->second.lastUsed < _config.connectionIdleTimeout)
+        if (!sawSurplus && it->second.tls == parsedUrl.isHttps() &&
+            now - it->second.lastUsed < _config.connectionIdleTimeout)
         {
           it->second.lastUsed = now;
           return it->second.id;
         }
-        // Idle, or it received unsolicited bytes while cached: close and evict,
-        // then fall through to reconnect.
+        // Idle, or it received unsolicited bytes while cached, or it was opened for
+        // the other scheme (http vs https): close and evict, then fall through to
+        // reconnect with the TLS mode this request asks for.
         _transport->close(it->second.id);
         _connections.erase(it);
       }
@@ -838,7 +844,8 @@ private:
     // (4) Publish the new connection (short critical section).
     {
       std::lock_guard<std::mutex> lock(_mutex);
-      _connections[hostPort] = ConnectionEntry{sessionId, std::chrono::steady_clock::now()};
+      _connections[hostPort] =
+        ConnectionEntry{sessionId, std::chrono::steady_clock::now(), tlsMode == TlsMode::Client};
     }
 
     return sessionId;
